@@ -29,6 +29,7 @@ type manShadow struct {
 	at       string          // artifact type used by the filter
 	blobGone bool
 	respLost bool // a collection ran while the subject was not a manifest of the repository: the response is dropped with its subject (F35)
+	noRoot   bool // a collection ran while the manifest had no index entry of its own and no top-level entry led to it (F33/F39)
 }
 
 type sessShadow struct {
@@ -58,6 +59,7 @@ type Monitors struct {
 	fsBase []string
 	prevStore  string
 	prevRef    string // the referrers switch before the last restart
+	rootedPre  map[string]map[string]bool // repo -> digests that a top-level entry (other than a referrers response) leads to, before the collection
 	gcBefore   *gcPre
 	aged       map[string]bool // repo|digest whose age was set beyond the grace period
 	diskShadow map[string]*repoShadow
@@ -619,7 +621,9 @@ func (m *Monitors) served(h *H, what, repo, real string, want []byte, known bool
 			return
 		}
 		name := "C02.readback"
-		if rs.orphans[real] {
+		if ms, ok := rs.mans[real]; ok && ms.noRoot && !rs.orphans[real] && r.Status == 404 {
+			name += ".child-record-without-root"
+		} else if rs.orphans[real] {
 			// cause: the manifest had become a child record of an index (no top-level entry of its own) and that index was
 			// deleted by digest; child records live in memory only (F31/F32/F33)
 			name += ".child-of-deleted-index"
@@ -805,6 +809,7 @@ func (m *Monitors) mPut(h *H, a []string, r Resp) {
 	ms.blobGone = false
 	delete(m.aged, repo+"|"+real) // a pushed manifest is recent, also when its bytes were there already (C05)
 	ms.respLost = false // a push registers the manifest with its subject again
+	ms.noRoot = false
 	m.note(repo, real)
 	ms.mts[mt] = true
 	rs.pushed[string(body)] = true
@@ -1127,14 +1132,93 @@ func (m *Monitors) raw(h *H, a []string, r Resp) {
 	m.common(h, "RAW "+a[0]+" "+a[1], r)
 }
 
+// rooted: the digests that the top-level entries of the index lead to (an entry itself, and the children listed by
+// index-shaped bodies, transitively); referrers responses are not roots (they are kept only with their subject).
+// A manifest outside this set exists only as a memory-only child record, or hangs on a response: what the open
+// findings F33 / F35 / F39 are about.
+func (m *Monitors) rooted(h *H, repo string) map[string]bool {
+	ents, err := h.srv.VerifIndexEntries(repo)
+	if err != nil {
+		return nil
+	}
+	rs := m.repo(repo)
+	seen := map[string]bool{}
+	queue := []string{}
+	for _, e := range ents {
+		if e[2] == "" {
+			queue = append(queue, e[0])
+		}
+	}
+	for len(queue) > 0 {
+		d := queue[0]
+		queue = queue[1:]
+		if seen[d] {
+			continue
+		}
+		seen[d] = true
+		var raw []byte
+		if ms, ok := rs.mans[d]; ok {
+			raw = ms.raw
+		} else if b, ok := rs.blobs[d]; ok {
+			raw = b
+		}
+		var idx types.Index
+		if raw != nil && json.Unmarshal(raw, &idx) == nil {
+			for _, c := range idx.Manifests {
+				queue = append(queue, c.Digest.String())
+			}
+		}
+	}
+	return seen
+}
+
+// preGC is called immediately before every collection of a repository
+func (m *Monitors) preGC(h *H, repo string) {
+	if m.rootedPre == nil {
+		m.rootedPre = map[string]map[string]bool{}
+	}
+	m.rootedPre[repo] = nil
+	if m.routable(h, repo) {
+		m.rootedPre[repo] = m.rooted(h, repo)
+	}
+}
+
 func (m *Monitors) gc(h *H, repo string) {
 	rs := m.repo(repo)
+	rooted := m.rootedPre[repo]
+	if rooted != nil {
+		for d, ms := range rs.mans {
+			if !rooted[d] {
+				ms.noRoot = true
+			}
+		}
+	}
 	// a response is kept only with its subject (ReferrersWithSubj / ReferrersDangling): referrers that stay are no longer listed
 	if *h.conf.Storage.GC.ReferrersWithSubj || *h.conf.Storage.GC.ReferrersDangling {
 		for _, ms := range rs.mans {
-			if sm, ok := rs.mans[ms.subject]; ms.subject != "" && (!ok || sm.blobGone) {
+			if sm, ok := rs.mans[ms.subject]; ms.subject != "" && (!ok || sm.blobGone || (rooted != nil && !rooted[ms.subject])) {
 				ms.respLost = true
 			}
+		}
+	}
+	// referrers that the policy removed with their response (subject not reached by the collection) are no longer
+	// acknowledged content; what they listed as children may linger as memory-only child records (F32)
+	acc := map[string][]string{"Accept": {mtReal["ocim"], mtReal["ocii"], mtReal["dockm"], mtReal["dockl"]}}
+	for d, ms := range rs.mans {
+		if !ms.respLost || ms.subject == "" {
+			continue
+		}
+		if g := h.do("HEAD", "/v2/"+repo+"/manifests/"+d, reqOpt{mode: "head", hdr: acc}); g.Status == 404 {
+			var idx types.Index
+			if json.Unmarshal(ms.raw, &idx) == nil {
+				if rs.orphans == nil {
+					rs.orphans = map[string]bool{}
+				}
+				for _, c := range idx.Manifests {
+					rs.orphans[c.Digest.String()] = true
+				}
+			}
+			delete(rs.mans, d)
 		}
 	}
 	if *h.conf.Storage.GC.Untagged || rs.refDirty || (h.conf.Storage.GC.ReferrersDangling != nil && *h.conf.Storage.GC.ReferrersDangling) {
@@ -1541,6 +1625,7 @@ func (m *Monitors) gcSnapshot(h *H, repo string) *gcPre {
 
 // beforeGC / afterGC bracket an explicit collection of one repository
 func (m *Monitors) beforeGC(h *H, repo string) {
+	m.preGC(h, repo)
 	if !m.routable(h, repo) {
 		m.gcBefore = nil
 		return
@@ -1578,6 +1663,10 @@ func (m *Monitors) afterGC(h *H, repo string) {
 			if rs.orphans[d] {
 				// cause: the manifest had become a child record of an index (no top-level entry of its own) and that index was deleted
 				name = "C05.untagged-removed.child-of-deleted-index"
+			} else if ms.noRoot {
+				// cause: no index entry of its own and no top-level entry leads to it (its parent is itself only a child
+				// record of a referrers response, which is dropped with its subject)
+				name = "C05.untagged-removed.child-record-without-root"
 			}
 			m.flag(h, name, fmt.Sprintf("manifest %s removed although untagged collection is off", h.tk.tokDigest(d)))
 		}
